@@ -10,7 +10,11 @@ Model: `AiocoapModel/Observe/Fresh.lean` (`fresher` = `is_recent` of `Request._r
 step per event on the request's `Pipe`; deliveries = response future, observation callbacks,
 errbacks, `_stop_interest`).  All theorems quantify over every history of pipe events — any
 arrival order, duplication, Observe values (any `Nat`: wrap-around at 2^24, differences around
-2^23, oversized values), arrival times, and position of terminating events.
+2^23, oversized values), arrival times, response codes (a notification is a 2.xx response that
+carries an Observe option, `Msg.notif`; every other response terminates, whatever its options),
+and position of terminating events — and of application calls: `observation.cancel()` between
+events, from inside the callback that hands over a message (`Msg.cancels`) or once more after the
+end, `response.cancel()` before or after the first response.
 -/
 namespace Aiocoap.Observe
 
@@ -703,9 +707,10 @@ theorem C07_network_error (cfg : Cfg) (pre post : List TEvent) (v1 t1 t k : Nat)
   simp [step, stepObserving]
 
 /-- **C07 (not observable).** The first response of an observing request: it always completes
-the response future; the errbacks get `NotObservable` iff it has no Observe option or is marked
-last, and then nothing else is ever delivered; otherwise the observation is established with its
-Observe value and arrival time. -/
+the response future; the errbacks get `NotObservable` iff it is not a notification — it has no
+Observe option, or its code is not 2.xx whatever its options — or is marked last, and then nothing
+else is ever delivered; otherwise the observation is established with its Observe value and
+arrival time. -/
 theorem C07_first_response (cfg : Cfg) (hobs : cfg.observe = true) (t : Nat) (m : Msg) (last : Bool)
     (post : List TEvent) :
     (if last = true ∨ m.notif = none then
@@ -1199,6 +1204,22 @@ example : (jointRun exCfg 0 exJointStart exJoint).2 =
      .errback .observationCancelled] := by decide
 example : (jointRun exCfg 0 exJointStart exJoint).1.st = .ended := by decide
 example : (jointRun exCfg 0 exJointStart exJoint).1.ms.outgoing = [] := by decide
+/-- the same exchange with a 4.04 that carries an (older) Observe option: the token manager marks
+it last, the runner hands it over as the final response, the token is retired and the next
+confirmable notification is reset -/
+def exJointErr : List JEv :=
+  [.net ⟨2, .recv 5 false { mtype := .ack, code := 69, mid := 100, token := [8], obs := some 5, body := 1 }⟩,
+   .net ⟨3, .recv 5 false { mtype := .con, code := 69, mid := 900, token := [8], obs := some 6, body := 2 }⟩,
+   .net ⟨4, .recv 5 false { mtype := .con, code := 132, mid := 901, token := [8], obs := some 3, body := 3 }⟩,
+   .net ⟨5, .recv 5 false { mtype := .con, code := 69, mid := 902, token := [8], obs := some 7, body := 4 }⟩]
+
+example : (jointRun exCfg 0 exJointStart exJointErr).2 =
+    [.response ⟨69, some 5, 1, false⟩, .callback ⟨69, some 6, 2, false⟩, .callback ⟨132, some 3, 3, false⟩,
+     .errback .observationCancelled] := by decide
+example : (jointRun exCfg 0 exJointStart (exJointErr.take 3)).1.ms.outgoing = [] := by decide
+example : (jointStep exCfg 0 (jointRun exCfg 0 exJointStart (exJointErr.take 3)).1
+    (exJointErr.getD 3 (.app 0 .obsCancel))).2.1 =
+    [.send 5 5 { mtype := .rst, code := 0, mid := 902, token := [], obs := none, body := 0 }] := by decide
 /-- the late CON notification (mid 902) is answered with a Reset -/
 example : (jointStep exCfg 0 (jointRun exCfg 0 exJointStart (exJoint.take 3)).1 (exJoint.getD 3 (.app 0 .obsCancel))).2.1 =
     [.send 5 5 { mtype := .rst, code := 0, mid := 902, token := [], obs := none, body := 0 }] := by decide
